@@ -674,6 +674,11 @@ func runC16(c *ev.ChildEnv, res *ev.Result) {
 		{"start", "start", "event", "stop", "stop", "wait"},
 		{"wait", "stop", "start", "event", "loss", "wait", "start-unreachable", "start", "event"},
 		{"start", "stop", "start", "stop", "start", "stop", "start", "pause", "event"},
+		// waiting after a *re*start that failed (the first session left its traces in the stub)
+		{"start", "stop", "start-unreachable", "wait", "start", "event"},
+		{"start", "loss", "start-unreachable", "wait", "start", "event"},
+		{"start", "stop", "start-refused", "wait", "start-silent", "wait", "start", "event"},
+		{"start", "event", "loss", "start-bad-mask", "wait", "start-unreachable", "wait", "start", "event"},
 	}
 	opsPool := []string{"start", "start", "start-slow", "stop", "loss", "wait", "event", "event", "pause", "start-unreachable", "start-refused", "start-partial-sync", "start-early-configure-refused", "start-bad-mask", "start-split-sync"}
 	hn := 0
@@ -730,7 +735,7 @@ func init() {
 	register(&Check{
 		ID: "C16", Level: "fault_enumeration", MinNontriv: 20,
 		Anchors: []string{"pkg/stub/stub.go", "pkg/net/multiplex/mux.go"},
-		Rule:    "fault/history list against the real stub with a harness dialer (fresh in-memory connections behind the cut-wrapper) and a raw runtime: (A) connection dropped at byte offset k of the connect/register/configure/synchronize handshake in each direction (quick: stride 5 plus the ends; thorough: every k); (B) histories over {Start, failing Start (unreachable / refused / never configured), Stop, Wait, connection loss, event, pause} of length <= 9, fixed and seeded random, with the old session's close notification delayed by a hook in half of them; oracles: every Start/Stop/Wait returns (hang rule 15 s + 1 s with goroutine dump), Start succeeds only if configured, a later Start on a fresh connection succeeds and the plugin handles events 0 and 300 ms later, close notification fires once per established session; the failing dialer returns a typed-nil connection every other time; histories in which the Configure request of a refused session is still being handled (150 ms) while the next Start runs; histories in which the Configure handler succeeds but names an unhandled event (Start must fail); sessions sending their state in two messages 80 ms apart after a loss (delayed old notification); Stop called 5-400 ms into a Start that is configured after 250 ms; distinct = fault points and histories that ran to completion",
+		Rule:    "fault/history list against the real stub with a harness dialer (fresh in-memory connections behind the cut-wrapper) and a raw runtime: (A) connection dropped at byte offset k of the connect/register/configure/synchronize handshake in each direction (quick: stride 5 plus the ends; thorough: every k); (B) histories over {Start, failing Start (unreachable / refused / never configured), Stop, Wait, connection loss, event, pause} of length <= 9, fixed and seeded random, with the old session's close notification delayed by a hook in half of them; oracles: every Start/Stop/Wait returns (hang rule 15 s + 1 s with goroutine dump), Start succeeds only if configured, a later Start on a fresh connection succeeds and the plugin handles events 0 and 300 ms later, close notification fires once per established session; the failing dialer returns a typed-nil connection every other time; histories in which the Configure request of a refused session is still being handled (150 ms) while the next Start runs; histories in which the Configure handler succeeds but names an unhandled event (Start must fail); sessions sending their state in two messages 80 ms apart after a loss (delayed old notification); Stop called 5-400 ms into a Start that is configured after 250 ms; Wait after a failed *re*start (unreachable / refused / never configured / bad mask after an earlier established session was stopped or lost); distinct = fault points and histories that ran to completion",
 		Assumptions: []string{
 			"whether the close notification also fires for a Start attempt that never got established is not stated and not asserted (upper bound only)",
 			"the first Start uses the stub's built-in 5 s registration timeout (it cannot be configured before the first configuration); later ones use the 800 ms sent by the raw runtime",
